@@ -8,6 +8,7 @@
 #include "engine/histbfs.hpp"
 #include "engine/enum.hpp"
 #include "engine/tracked.hpp"
+#include "harness/pool_canon.hpp"
 #include <algorithm>
 
 using vf::Tracked;
@@ -132,7 +133,7 @@ struct H
     for(int p = 0; p < n; ++p) add(REMI, p);
     if(n) { add(REMF); add(REMB); }
     add(CLEAR);
-    add(SWAP);
+    add(SWAP, 0); add(SWAP, 1);   // both receivers
 #ifndef VF_PL
     add(COPY); add(ASSIGN_BA); add(ASSIGN_AB);
 #endif
@@ -384,7 +385,7 @@ struct H
       break;
     }
     case CLEAR: LIB(a.clear()); faults(); ra.clear(); break;
-    case SWAP: LIB(a.swap(b)); faults(); ra.swap(rb); break;
+    case SWAP: if(o.x) LIB(b.swap(a)); else LIB(a.swap(b)); faults(); ra.swap(rb); break;
     case SELFSWAP: LIB(a.swap(a)); faults(); break;
 #ifndef VF_PL
     case COPY:
@@ -496,6 +497,9 @@ struct H
       s += vf::fmt("n%d c%d %s", (int)ref[w].size(), (int)v[w]->capacity(), (const Tracked*)*v[w] ? "alloc" : "null");
 #else
       s += vf::fmt("n%d", (int)ref[w].size());
+#endif
+#ifndef VF_ARRAY
+      s += poolCanon(*v[w], *v[1 - w]);
 #endif
     }
     return s;
